@@ -50,7 +50,7 @@ func allRules() []*Rule {
 		ruleR36(),
 		ruleR37(),
 		ruleR21(),
-		ruleR22(),
-		ruleR23(),
+		with(ruleR22(), r22NoStaleSnapshot),
+		with(ruleR23(), r23ExclusionLookedAt),
 	}
 }
